@@ -21,7 +21,8 @@ type Op struct {
 	Timeout int    `json:"to,omitempty"`
 	Ms      int    `json:"ms,omitempty"`
 	Cap     int    `json:"cap,omitempty"`
-	Flag    bool   `json:"f,omitempty"` // ack / progress / kill
+	Flag    bool   `json:"f,omitempty"`    // ack / progress / kill
+	Slow    bool   `json:"slow,omitempty"` // join: the session's handler is parked for a few ms in every message it handles
 }
 
 // ShutCase is one injection: run Ops[:At], then Inject; InFlight = do not wait for quiescence
@@ -53,7 +54,7 @@ func genHistory(rng *hcommon.RNG, n int) []Op {
 	caps := []int{1, 2, 4, 64}
 	names := []string{"a", "b", "c", "d"}
 	for _, s := range names[:2+rng.Intn(3)] {
-		ops = append(ops, Op{Kind: "join", S: s, Cap: hcommon.Pick(rng, caps)})
+		ops = append(ops, Op{Kind: "join", S: s, Cap: hcommon.Pick(rng, caps), Slow: rng.Chance(1, 3)})
 	}
 	joined := func() []string {
 		var js []string
@@ -78,7 +79,13 @@ func genHistory(rng *hcommon.RNG, n int) []Op {
 	for len(ops) < n {
 		js := joined()
 		s := hcommon.Pick(rng, js)
-		switch rng.Intn(16) {
+		switch rng.Intn(18) {
+		case 16:
+			// first chunk of a progressive call invocation
+			ops = append(ops, Op{Kind: "pcall", S: s, Arg: hcommon.Pick(rng, shutProcs)})
+		case 17:
+			// a later chunk of the session's last call (same request id)
+			ops = append(ops, Op{Kind: "chunk", S: s, Arg: hcommon.Pick(rng, shutProcs), Flag: rng.Chance(1, 2)})
 		case 0, 1:
 			ops = append(ops, Op{Kind: "sub", S: s, Arg: hcommon.Pick(rng, shutTopics)})
 		case 2, 3:
@@ -127,7 +134,13 @@ func (w *shutWorld) apply(o Op, wait bool) {
 	switch o.Kind {
 	case "join":
 		if s == nil {
-			if err := w.attach(o.S, "r1", o.Cap); err != nil {
+			var err error
+			if o.Slow {
+				err = w.attachSlow(o.S, "r1", o.Cap)
+			} else {
+				err = w.attach(o.S, "r1", o.Cap)
+			}
+			if err != nil {
 				w.note("join %s: %v", o.S, err)
 			}
 		}
@@ -163,6 +176,18 @@ func (w *shutWorld) apply(o Op, wait bool) {
 		id := s.req()
 		w.calls[s.Name] = append(w.calls[s.Name], id)
 		w.send(s, &wamp.Call{Request: id, Procedure: wamp.URI(o.Arg), Options: opts, Arguments: wamp.List{1}})
+	case "pcall":
+		id := s.req()
+		w.calls[s.Name] = append(w.calls[s.Name], id)
+		w.send(s, &wamp.Call{Request: id, Procedure: wamp.URI(o.Arg), Options: wamp.Dict{"progress": true}, Arguments: wamp.List{1}})
+	case "chunk":
+		if cs := w.calls[s.Name]; len(cs) > 0 {
+			opts := wamp.Dict{}
+			if o.Flag {
+				opts["progress"] = true
+			}
+			w.send(s, &wamp.Call{Request: cs[len(cs)-1], Procedure: wamp.URI(o.Arg), Options: opts, Arguments: wamp.List{3}})
+		}
 	case "yield":
 		if len(s.invocations) > 0 {
 			inv := s.invocations[0]
@@ -198,9 +223,48 @@ func (w *shutWorld) apply(o Op, wait bool) {
 		w.send(s, &wamp.Goodbye{Reason: wamp.CloseRealm, Details: wamp.Dict{}})
 	}
 	if wait {
+		if s.slow {
+			time.Sleep(2 * slowHandlerDelay)
+		}
 		synctest.Wait()
 		w.drain()
 	}
+}
+
+// slowHandlerDelay is how long the handler of a "slow" session is parked in every message it
+// handles (in authzMessage, through Peer.IsLocal): at an injection that does not wait for
+// quiescence the handler is in the middle of a message while the realm shuts down.
+const slowHandlerDelay = 2 * time.Millisecond
+
+func (w *shutWorld) attachSlow(name, realm string, capacity int) error {
+	se, errc := w.attachAsync(name, realm, capacity, false, func(p wamp.Peer) wamp.Peer { return slowLocalPeer{p, slowHandlerDelay} })
+	time.Sleep(4 * slowHandlerDelay)
+	synctest.Wait()
+	select {
+	case err := <-errc:
+		if err != nil {
+			return err
+		}
+	default:
+		return fmt.Errorf("attach of %s did not return", name)
+	}
+	select {
+	case m, ok := <-se.c.Recv():
+		if !ok {
+			return fmt.Errorf("%s: closed before WELCOME", name)
+		}
+		wel, ok := m.(*wamp.Welcome)
+		if !ok {
+			return fmt.Errorf("%s: expected WELCOME, got %s", name, m.MessageType())
+		}
+		se.ID = wel.ID
+	default:
+		return fmt.Errorf("%s: no WELCOME queued", name)
+	}
+	se.slow = true
+	w.sess[name] = se
+	w.order = append(w.order, name)
+	return nil
 }
 
 // probeRealm checks that a realm still routes: a fresh publication reaches a subscriber and a call
